@@ -734,7 +734,7 @@ def run_r5(repo: Repo, res: Result) -> None:
                             if scs and all(isinstance(x, Sc) for x in els) and all(_plain(sc.srcs) and _plain(sc.srcs) <= pset and "search" not in sc.srcs and not (sc.eids & c["live"]) for sc in scs):
                                 for sc in scs:
                                     used |= sc.srcs & pset
-                                    partial += [f"{mk[2]} [{mk[1]}]" for mk in sc.marks if mk[0] == "part"]
+                                    partial += [f"a search is handed an incomplete set of the given modules - {mk[2]} [{mk[1]}]" for mk in sc.marks if mk[0] == "part"]
                                 pname = c["names"][ai] if ai < len(c["names"]) else None
                                 mut = _mutates_param(repo, c["fn"], pname) if pname and c["live"] and not (it.cell(sh).born & c["live"]) else None
                                 if mut is not None:
@@ -751,7 +751,7 @@ def run_r5(repo: Repo, res: Result) -> None:
                                 else:
                                     for sc in scs:
                                         used |= sc.srcs & pset
-                                        partial += [f"{mk[2]} [{mk[1]}]" for mk in sc.marks if mk[0] == "part"]
+                                        partial += [f"a search is handed an incomplete set of the given modules - {mk[2]} [{mk[1]}]" for mk in sc.marks if mk[0] == "part"]
                             else:
                                 extra.append(f"`{norm(c['node'], 80)}`: a collection that is not one of the complete module sets {sorted(pset)}")
                         elif isinstance(sh, Ref) and sh.kind == "dict":
@@ -760,7 +760,7 @@ def run_r5(repo: Repo, res: Result) -> None:
                             if scs and all(sc.srcs and _plain(sc.srcs) <= pset and not ((sc.eids - sc.gone) & c["live"]) for sc in scs):
                                 for sc in scs:
                                     used |= sc.srcs & pset
-                                    partial += [f"{mk[2]} [{mk[1]}]" for mk in sc.marks if mk[0] == "part"]
+                                    partial += [f"a search is handed an incomplete set of the given modules - {mk[2]} [{mk[1]}]" for mk in sc.marks if mk[0] == "part"]
                                 pname = c["names"][ai] if ai < len(c["names"]) else None
                                 mut = _mutates_param(repo, c["fn"], pname) if pname and c["live"] and not (it.cell(sh).born & c["live"]) else None
                                 if mut is not None:
@@ -936,6 +936,8 @@ def run_r6(repo: Repo, res: Result) -> None:
 
 # public fluent API (docs/, tests/): Rule().modules_that().are_named(..).should_not().import_modules_that().are_named(..)
 _FLUENT = (("modules_that", None), ("are_named", "pkg.subject"), ("should_not", None), ("import_modules_that", None), ("are_named", "pkg.object"))
+# ... and Rule().modules_that().have_name_matching(regex).should_not().import_anything()  (regex subjects + the 'anything' alias)
+_FLUENT_ALIAS = (("modules_that", None), ("have_name_matching", "pkg\\..*"), ("should_not", None), ("import_anything", None))
 
 
 def _run_r6_rule_level(repo: Repo, res: Result, T, proto: ClassInfo) -> None:
@@ -947,21 +949,21 @@ def _run_r6_rule_level(repo: Repo, res: Result, T, proto: ClassInfo) -> None:
     for base in bases:
         names = [m.name for m in base.methods.values() if m.is_abstract and _public(repo, m) and any(_mentions_class(_ann(T, m, p), proto.fq) for p in m.params[1:])]
         for cls in _concrete_classes(repo, base):
-            if cls.fq in seen or cls.fq == base.fq or not all(repo.lookup_method(cls, f) is not None for f, _ in _FLUENT):
+            if cls.fq in seen or cls.fq == base.fq:
                 continue
             seen.add(cls.fq)
             init = repo.lookup_method(cls, "__init__")
             if init is not None and len(init.node.args.args) - 1 - len(init.node.args.defaults) > 0:
                 continue  # needs constructor arguments
-            for name in names:
+            for name, (label, fluent) in [(n_, sc_) for n_ in names for sc_ in (("", _FLUENT), (" [regex subjects, anything]", _FLUENT_ALIAS))]:
                 entry = repo.lookup_method(cls, name)
-                if entry is None or entry.is_abstract:
+                if entry is None or entry.is_abstract or not all(repo.lookup_method(cls, f) is not None for f, _ in fluent):
                     continue
                 it = Interp(repo)
                 try:
                     obj = it.instantiate(cls, lambda p, init: None, "rule")
                     cur = obj
-                    for i, (f, arg) in enumerate(_FLUENT):
+                    for i, (f, arg) in enumerate(fluent):
                         cur = it.call_method(cur, f, [V(Const(arg))] if arg is not None else [], f"fluent-{i}")
                         cur = frozenset(sh for sh in cur if isinstance(sh, Ref) and sh.kind == "obj") or obj
                     it.writes = set()
@@ -987,7 +989,7 @@ def _run_r6_rule_level(repo: Repo, res: Result, T, proto: ClassInfo) -> None:
                     detail = f"a rule object applied to a second architecture reads `{'`, `'.join(sorted({r[2] for r in reads}))}` as left behind by the first application (first read: {reads[0][1].split('::', 1)[1]}): the report is about the modules of the first architecture"
                 elif crossed:
                     detail = f"a rule object applied to a second architecture asks it about modules that were resolved against the first one (`{crossed[0][3].rsplit('::', 1)[-1]}`)"
-                res.add("C03.R6", f"{head}::rule object applied twice", ok, detail, reads[0][0] if reads else (crossed[0][3].split("::", 1)[0] if crossed else where(entry, entry.node)), kind="flow")
+                res.add("C03.R6", f"{head}::rule object applied twice{label}", ok, detail, reads[0][0] if reads else (crossed[0][3].split("::", 1)[0] if crossed else where(entry, entry.node)), kind="flow")
 
 
 def run(repo: Repo) -> Result:
